@@ -148,6 +148,57 @@ def writeScopeReq (existing : Option Scope) (proposed : Scope) (specRoles : List
     if ex.rollup then .parties ex.owners ex.owners specRoles
     else if ex.equals proposed then .addrs [] else .addrs (addresses ex.owners)
 
+/-! #### scopes with a value owner ("Scope Value Owner Address Requirements", 01_concepts.md:85-97)
+
+`storedVO`: the scope's current value owner (`""`: none); `proposedVO`: the message's
+`value_owner_address` (`""`: no desired change).  Not markers (C09). -/
+
+/-- the write changes the value owner from one address to another -/
+def valueOwnerChanging (existing : Option Scope) (storedVO proposedVO : Addr) : Bool :=
+  existing.isSome && storedVO != "" && proposedVO != "" && storedVO != proposedVO
+
+/-- "If it's a smart contract doing this, it'll be the first signer provided, and we ignore all
+other signers" (signers.go:439): the signers that can stand for the value owner. -/
+def valueOwnerSigners (env : Env) : List Addr → List Addr
+  | [] => []
+  | s0 :: rest => if env.wasm s0 then [s0] else s0 :: rest
+
+/-- "When a value owner address is a non-marker address, and is being changed, that existing
+address must be one of the signers" (authz included). -/
+def valueOwnerCovered (env : Env) (msgType : MsgType) (signers : List Addr) (vo : Addr) : Bool :=
+  covered env msgType (valueOwnerSigners env signers) vo
+
+/-- the value-owner requirement of a scope write -/
+def writeScopeValueOwnerOk (env : Env) (existing : Option Scope) (storedVO proposedVO : Addr)
+    (signers : List Addr) : Bool :=
+  !valueOwnerChanging existing storedVO proposedVO || valueOwnerCovered env "WriteScope" signers storedVO
+
+/-- "the ONLY change is to that value owner address": every other field of the stored scope —
+owners, specification, data access, `require_party_rollup` — is what the message says. -/
+def onlyValueOwnerChanges (existing : Option Scope) (storedVO : Addr) (proposed : Scope)
+    (proposedVO : Addr) : Bool :=
+  match existing with
+  | some ex => valueOwnerChanging existing storedVO proposedVO && ex.equals proposed
+  | none => false
+
+/-- "Writing or Deleting a Scope" (write) in full.  If ONLY the value owner changes "all other
+signer requirements are ignored"; otherwise the requirements of `writeScopeReq`, where a write
+that sets the first value owner is a change ("When a value owner address is empty, and is being
+changed, standard scope signer requirements are also applied"). -/
+def writeScopeReqVO (existing : Option Scope) (storedVO : Addr) (proposed : Scope) (proposedVO : Addr)
+    (specRoles : List Role) : Req :=
+  match existing with
+  | none => .addrs []
+  | some ex =>
+    if onlyValueOwnerChanges existing storedVO proposed proposedVO then .addrs []
+    else if ex.rollup then .parties ex.owners ex.owners specRoles
+    else if ex.equals proposed && (proposedVO == "" || storedVO == proposedVO) then .addrs []
+    else .addrs (addresses ex.owners)
+
+/-- deleting a scope that has a value owner: that value owner signs -/
+def deleteScopeValueOwnerOk (env : Env) (storedVO : Addr) (signers : List Addr) : Bool :=
+  storedVO == "" || valueOwnerCovered env "DeleteScope" signers storedVO
+
 def deleteScopeReq (scope : Scope) (specRoles : Option (List Role)) : Req :=
   if scope.rollup then
     match specRoles with
